@@ -121,7 +121,10 @@ def run(prop, tier, seed, verdict):
         lines = []
         for j in range(nrelay):
             if j % 8 == s:
-                lines += ["case r%d" % j, "relay %d %d %d %d" % (seed * 7919 + j, rng.choice([1, 2, 3, 6]), rng.choice([5, 40, 200]), rng.choice([0, 10, 100]))]
+                # every 16th relay run is watched for 1.3 s after its last message: nothing may reach the port (or the
+                # devices) that nobody sent, however long the relay has been running
+                quiet = 1300 if j % 16 == 3 else 30
+                lines += ["case r%d" % j, "relay %d %d %d %d %d" % (seed * 7919 + j, rng.choice([1, 2, 3, 6]), rng.choice([5, 40, 200]), rng.choice([0, 10, 100]), quiet)]
         # the whole input path (port -> relay -> fan-out -> device queues) with consumers that let it back up completely
         for j in range(npipe):
             if j % 8 == s:
